@@ -1280,6 +1280,183 @@ val divider_line : n list -> n -> z -> n list
 
 val ideal : n list -> n -> (n list * z) list -> n list
 
+val u64 : n
+
+val nANOS : n
+
+val y_SECS : n
+
+val mO_SECS : n
+
+val s_YEAR : n list
+
+val s_MONTH : n list
+
+val s_DAY : n list
+
+val s_H : n list
+
+val s_M : n list
+
+val s_S : n list
+
+val s_MS : n list
+
+val s_US : n list
+
+val s_NS : n list
+
+val item_text : n -> n list -> bool -> n list
+
+val dchain : bool -> ((n * n list) * bool) list -> n list
+
+val dur_items : n -> n -> ((n * n list) * bool) list
+
+val format_duration : n -> n -> n list
+
+type unit_t =
+| UNano
+| UMicro
+| UMilli
+| USec
+| UMin
+| UHour
+| UDay
+| UWeek
+| UMonth
+| UYear
+
+val unit_table : (n list * unit_t) list
+
+val lookup_unit : (n list * unit_t) list -> n list -> unit_t option
+
+val unit_of : n list -> unit_t option
+
+val chk : n -> n option
+
+val duration_new : n -> n -> (n * n) option
+
+val add_current : n -> n -> (n * n) -> (n * n) option
+
+val unit_amount : unit_t -> n -> (n * n) option
+
+val parse_unit : n -> n list -> (n * n) -> (n * n) option
+
+val is_white0 : n -> bool
+
+val is_unit_letter : n -> bool
+
+type pstate =
+| SFirst
+| SNum of n
+| SUnit of n * n list
+
+type pres =
+| DOk of n * n
+| DErr
+| DUnsupported
+
+val pgo : n list -> pstate -> (n * n) -> bool -> pres
+
+val parse_duration : n list -> pres
+
+type ycfg = { y_os : n option; y_kc : bool option; y_to : (n * n) option;
+              y_de : bool option; y_sk : z option; y_sa : bool option;
+              y_wa : ((n * n) * n list option) option;
+              y_env : (n list * n list) list }
+
+val yempty : ycfg
+
+val k_OS : n list
+
+val k_KC : n list
+
+val k_TO : n list
+
+val k_DE : n list
+
+val k_SK : n list
+
+val k_SA : n list
+
+val k_WA : n list
+
+val k_ENV : n list
+
+val t_TRUE : n list
+
+val t_FALSE : n list
+
+val t_STDOUT : n list
+
+val t_STDERR : n list
+
+val t_COMBINED : n list
+
+val wAIT_OPEN : n list
+
+val wAIT_PATH : n list
+
+type fval =
+| FStream of n
+| FBool of bool
+| FDur of n * n
+| FInt of z
+| FWait of n * n * n list option
+| FEnv of (n list * n list) list
+
+val stream_name : n -> n list
+
+val bool_text : bool -> n list
+
+val value_text : fval -> n list
+
+val entry_text : (n list * fval) -> n list
+
+val opt_entry : n list -> ('a1 -> fval) -> 'a1 option -> (n list * fval) list
+
+val entries_of : ycfg -> (n list * fval) list
+
+val one_liner : ycfg -> n list
+
+val take_plain : n list -> n list * n list
+
+val ystrip : n list -> n list -> n list option
+
+val read_dur : n list -> ((n * n) * n list) option
+
+val read_bool : n list -> (bool * n list) option
+
+val read_stream : n list -> (n * n list) option
+
+val read_flow_scalar : n list -> (n list * n list) option
+
+type ykind =
+| KStream
+| KBool
+| KDur
+| KInt
+| KWait
+| KEnv
+
+val key_kind : n list -> ykind option
+
+val read_wait : n list -> (fval * n list) option
+
+val read_kind : ykind -> n list -> (fval * n list) option
+
+val read_fval : n list -> n list -> (fval * n list) option
+
+val read_items : nat -> n list -> ((n list * fval) list * n list) option
+
+val read_mapping : n list -> ((n list * fval) list * n list) option
+
+val set_field : ycfg -> (n list * fval) -> ycfg option
+
+val assemble : (n list * fval) list -> ycfg -> ycfg option
+
+val read_one_liner : n list -> ycfg option
+
 val make_exp : bool -> bool -> (nat -> bool) -> nat exp
 
 val exp_opt : nat exp -> bool
